@@ -183,6 +183,14 @@ def jnorm(x):
   _clean_up_value) into the list itself; the model keeps the string.  Both are mapped to the list
   token.  (Documented coarsening: a Text cell "[1, 4]" and a list cell [1, 4] compare equal.)"""
   if isinstance(x, str):
+    if x.startswith("sRecordList(["):
+      # the alt-text encoding of a rich RecordList object sitting in a column whose type does not accept it (e.g. a
+      # summary table's `group` column while a rejected bundle had it converted): the encoding of such an object
+      # depends on the column type of the moment, the object itself is the list of row ids
+      import re
+      m = re.match(r"sRecordList\(\[([0-9, ]*)\]", x)
+      if m:
+        return ed.tok(["L"] + [int(t) for t in m.group(1).replace(" ", "").split(",") if t])
     if x.startswith("s["):
       try:
         v = json.loads(x[1:])
